@@ -335,6 +335,9 @@ def gen_case(r):
         elif transport == "tcp" and x < 30 and r.chance(1, 3):
             toks.append("c%d:r" % nextk)                   # connects and resets at once
             nextk += 1
+        elif kind in ("threaded", "forking") and not closed and x >= 92:
+            toks.append("f%d" % nextk)                     # no thread / child process can be started for it
+            nextk += 1
         elif (not live or x < 28) and nextk <= nclients + closed:
             cred = "g"
             if auth and r.chance(1, 3):
@@ -374,8 +377,10 @@ def model_lines(case):
 
 
 def run_impl(case, expect=None, ceiling=servers.CEILING):
+    # (a one-shot server's second client is never served: its calls cost their whole timeout, which is kept short there)
     return servers.run_case(case["server"], case["transport"], case["auth"], case["nb"], case["ops"], expect=expect,
-                            ceiling=ceiling, opts=case.get("opts", ()))
+                            ceiling=ceiling, opts=case.get("opts", ()),
+                            call_timeout=0.6 if case["server"] == "oneshot" else servers.CALL_TIMEOUT)
 
 
 def compare_case(case, ceiling=servers.CEILING):
@@ -407,8 +412,20 @@ def correspondence(ctx):
               "authenticator, sequence of (operation kind, client observation)).")
     r = Rng(ctx.seed).fork("c17")
     cases = corpus()
+    if ctx.budget(True, False):
+        # quick tier: of the boundary cases that exist for both transports the unix twins are run every other seed (all of
+        # them in the thorough tier), so that seeded sequences get their share of the time
+        keep, n = [], 0
+        for case in cases:
+            if case["transport"] == "unix":
+                n += 1
+                if (n + ctx.seed) % 2:
+                    continue
+            keep.append(case)
+        c.count("quick-tier:unix-corpus-cases-left-to-other-seeds", len(cases) - len(keep))
+        cases = keep
     ncases = len(cases) + ctx.budget(45, 720)
-    deadline = time.time() + ctx.budget(44, 780)
+    deadline = time.time() + ctx.budget(40, 780)
     while len(cases) < ncases:
         cases.append(gen_case(r))
     believed = 0
@@ -438,6 +455,8 @@ def correspondence(ctx):
             c.count("kind:" + case["server"])
             c.count("transport:" + case["transport"])
             c.count("auth:" + ("yes" if case["auth"] else "no"))
+            for o in case.get("opts", ()):
+                c.count("option:" + o)
             for t, l in zip(case["ops"], lines):
                 c.count("op:" + t[0])
                 c.count("obs:" + l.split("|", 1)[0])
